@@ -470,6 +470,18 @@ func buildRegistration(r *RNG, s *RegSpec) *RegBuilt {
 			origin = pick(r, []int{1, 2, 3})
 		}
 		kd := keyDescriptionDER(chal, s.d("ak.allAppsSW"), s.d("ak.allAppsTEE"), origin, purpose, false)
+		if s.d("ak.schemaNull.allApps") {
+			// schema-conformant encoding (NULL-typed elements as EXPLICIT NULL, independent encoder): allApplications PRESENT in the TEE list
+			kd = kdSpec{attVersion: 3, secLevel: 1, challenge: chal, teeAll: true, hasOrigin: true, teeOrigin: 0, teePurpose: []int{2}, keySize: 256, nullStyle: "schema"}.DER()
+		}
+		if s.d("ak.schemaNull.originAfterNull") {
+			// noAuthRequired (NULL) precedes origin = IMPORTED in the TEE list
+			kd = kdSpec{attVersion: 3, secLevel: 1, challenge: chal, teeNoAuth: true, hasOrigin: true, teeOrigin: 2, teePurpose: []int{2}, keySize: 256, nullStyle: "schema"}.DER()
+		}
+		if s.d("ak.schemaStyle.honest") {
+			// schema-conformant encoding of an honest description WITHOUT NULL-typed elements: must be accepted
+			kd = kdSpec{attVersion: 3, secLevel: 1, challenge: chal, hasOrigin: true, teeOrigin: 0, teePurpose: []int{2, 3}, keySize: 256, osVersion: 110000, nullStyle: "schema"}.DER()
+		}
 		exts := []pkix.Extension{{Id: oidAndroidKeyX, Value: kd}}
 		if s.d("ak.noExtension") {
 			exts = nil
@@ -668,6 +680,11 @@ func makeJWS(k *KeyPair, payload []byte, chain [][]byte, withX5c bool) string {
 		alg, key = jose.RS256, k.RSA
 	case "ec":
 		alg, key = jose.ES256, k.EC
+		if k.Crv == 2 {
+			alg = jose.ES384
+		} else if k.Crv == 3 {
+			alg = jose.ES512
+		}
 	default:
 		alg, key = jose.EdDSA, k.Ed
 	}
